@@ -31,3 +31,11 @@ Print Assumptions C06_sf_div_is_ieee.
 Theorem C06_sf_minus_is_ieee : forall x y : binary_float 53 1024, B2SF (Bminus mode_NE x y) = SFsub 53 1024 (B2SF x) (B2SF y).
 Proof. exact sf_minus_bridge. Qed.
 Print Assumptions C06_sf_minus_is_ieee.
+
+(* binary32 (float coordinates) *)
+Theorem C06_locate_in_grid32 : forall H (center width pos : binary_float 24 128),
+  (1 <= H <= 30)%Z -> is_finite center = true -> is_finite pos = true -> is_finite width = true ->
+  (bpow radix2 (-90) <= B2R width <= bpow radix2 90)%R ->
+  forall k, locate1 24 128 H (B2SF center) (B2SF width) (B2SF pos) = LocCoord k -> (0 <= k <= 2 ^ (H - 1) - 1)%Z.
+Proof. exact locate1_in_grid32. Qed.
+Print Assumptions C06_locate_in_grid32.
